@@ -250,7 +250,7 @@ func compare(p *prepared, text string, res *emit.LexResult) error {
 // longUnit: tokens whose lexemes can be made long by repeating a unit.
 var longUnit = map[string]string{"ID": "ab9_", "NUM": "90", "STR": "xy+", "CYR": "яд", "CJK": "中文", "EACUTE": "é"}
 
-var nearMisses = []string{"1.", "@", "\"abc", "~", "1.x", "é", "\x01", "-", "=>>", "#A", "ж", "\u07ff", "\U0010FFFF", "\f", "\v", "\x1c", "\x1f", "\u0085", "\u00a0", "\u2028", "\u3000"}
+var nearMisses = []string{"1.", "@", "\"abc", "~", "1.x", "é", "\x01", "-", "=>>", "#A", "ж", "\u07ff", "\U0010FFFF", "\f", "\v", "\x1c", "\x1f", "\u0085", "\u00a0", "\u2028", "\u3000", "\x00", "\x00\x00", "\x00;"}
 
 func genInput(t *rapid.T, p *prepared) string {
 	var b strings.Builder
